@@ -189,7 +189,7 @@ mod verif_offsets {
                 for k in 0..INNER_NDIM {
                     assert!(ob.inner_pos[k].remaining == before.inner_pos[k].remaining && ob.inner_pos[k].offset == before.inner_pos[k].offset);
                 }
-                kani::cover!(r);
+                if n_outer > 0 { kani::cover!(r); }
                 kani::cover!(!r);
             }
         };
